@@ -73,6 +73,7 @@ K_FIND = {
 K_FILTERS = {
     "vk_is_interesting_rule": H("C", "MappingInfo::is_interesting"),
     "vk_contains_address_rule": H("C", "MappingInfo::contains_address"),
+    "vk_mmpermission_bits": H("C", "procfs_core MMPermissions::{bits, contains} (pins the Verus stand-in)"),
     "vk_is_contained_in_n0": H("B", "MappingInfo::is_contained_in", "empty user list"),
     "vk_is_contained_in_n1": H("B", "MappingInfo::is_contained_in", "1 symbolic user mapping"),
     "vk_is_contained_in_n2": H("B", "MappingInfo::is_contained_in", "2 symbolic user mappings"),
@@ -385,11 +386,13 @@ PLAN["C14"] = {
 
 PLAN["C08"] = {
     "level": "model_checking",
-    "explanation": "the module filters: is_interesting and contains_address proved for all field values (Kani, complete), is_contained_in for user lists of 0..2 "
-                   "mappings (bounded); the effective module name (SONAME replaces / is appended to the last path component) and entry-point-module-first by native "
+    "explanation": "the module filters is_interesting, contains_address and is_contained_in (any user list length) proved verbatim (Verus) and "
+                   "cross-checked by Kani (complete for the loop-free ones, user lists of 0..2 mappings for is_contained_in); the effective module name (SONAME replaces / is appended to the last path component) and entry-point-module-first by native "
                    "enumeration; build-id/SONAME content is C14",
-    "verus": [],
-    "kani": [{"tiers": Q, "jobs": 5, "timeout": 900, "harnesses": K_FILTERS}],
+    "verus": [{"unit": "maps_filter", "functions": ["is_interesting", "contains_address", "is_contained_in", "is_executable", "is_readable", "is_writable"], "tags": ["C08"], "tiers": Q}],
+    "kani": [{"tiers": Q, "jobs": 6, "timeout": 900, "harnesses": K_FILTERS}],
+    "twins": {"is_contained_in": ["kani:vk_is_contained_in_n1", "kani:vk_is_contained_in_n2"], "is_interesting": ["kani:vk_is_interesting_rule"],
+              "contains_address": ["kani:vk_contains_address_rule"]},
     "native": [{"stem": "module_reader", "filter": "c14_well", "tiers": Q, "tests": {
         "c14_well_formed_image_is_identified": H("B'", "BuildId/SoName::read_from_module", "3 hand-built ELF64 images")}},
                {"stem": "maps_reader", "filter": "bprime_effective", "tiers": Q, "tests": {
@@ -469,6 +472,7 @@ PLAN["C02"] = {
                                      "exception_stream_write", "contains_address", "end_address"], tags=["C02"]),
               {"unit": "dir_section", "functions": ["new", "dump_dir_entry", "write_to_file"], "tags": ["C02"], "tiers": Q},
               {"unit": "app_memory", "functions": ["app_memory_write"], "tags": ["C02"], "tiers": Q},
+              {"unit": "maps_filter", "functions": ["is_interesting", "is_contained_in"], "tags": ["C02"], "tiers": Q},
               {"unit": "mem_writer", "functions": None, "tags": ["C02"], "tiers": Q}],
     "kani": [{"tiers": Q, "jobs": 8, "timeout": 1200, "harnesses": dict(K_HAS_PTR, **dict(K_FIND, **{"vk_safe_to_open_table": H("B", "MappingInfo::is_mapped_file_safe_to_open", "5 concrete names")}))}],
     "native": [N_PD_TOTAL,
